@@ -69,6 +69,9 @@ fn main() {
         "C11" => props::trans::C11,
         "C12" => props::trans::C12,
         "C13" => props::c13::C13,
+        "C14" => props::c14::C14,
+        "C15" => props::c15::C15,
+        "C16" => props::c15::C16,
         "C31" => props::small::C31,
         "C32" => props::small::C32,
     );
